@@ -9,6 +9,7 @@ def run(chk):
     progs = apifam.programs(chk, "Api_mc.cfg", cap=500 if quick else 4000,
                             label="every program of <= 4 operations over 3 handles, chunk sizes 0..2")
     progs += apifam.programs(chk, "Api_sim.cfg", simulate=150 if quick else 1500, depth=20, cap=150 if quick else 1500)
+    progs += apifam.programs(chk, "Api_deep.cfg", cap=100000, label="one handle, chunks of any size 0..24, then peek / another chunk: every position of the stream")
     apifam.replay(chk, yv, "c09", progs)
     # indicator level: init, next, over, init_fn / into_fn, clones -- static and dyn, every indicator
     from checks import c11
